@@ -808,6 +808,28 @@ func compareArray(r *gozxing.BitArray, m *amodel) string {
 	if r.GetNextSet(n+5) != n || r.GetNextUnset(n+5) != n {
 		return "GetNextSet/GetNextUnset beyond the size does not return the size"
 	}
+	// positions far beyond the size, among them ones that look like a position inside once cut to
+	// 16 / 31 / 32 / 33 bits
+	const maxInt = int(^uint(0) >> 1)
+	for _, far := range []int{n + 1, n + 31, n + 32, n + 33, 1 << 16, 1<<16 + n/2, 1 << 31, 1<<31 + n/2, 1 << 32, 1<<32 + 1, 1<<32 + n/2, 1<<32 + n - 1, 1<<33 + n/2, maxInt - 31, maxInt} {
+		if far <= n {
+			continue
+		}
+		if g := r.GetNextSet(far); g != n {
+			return fmt.Sprintf("GetNextSet(%d)=%d on an array of %d bits, expected the size", far, g, n)
+		}
+		if g := r.GetNextUnset(far); g != n {
+			return fmt.Sprintf("GetNextUnset(%d)=%d on an array of %d bits, expected the size", far, g, n)
+		}
+		if _, err := r.IsRange(0, far, false); err == nil {
+			return fmt.Sprintf("IsRange(0,%d) on an array of %d bits returned no error", far, n)
+		}
+		if far > 1<<30 {
+			if _, err := r.IsRange(far-1, far, true); err == nil {
+				return fmt.Sprintf("IsRange(%d,%d) on an array of %d bits returned no error", far-1, far, n)
+			}
+		}
+	}
 	// IsRange over boundary ranges
 	cands := uniq([]int{0, 1, 31, 32, 33, 63, 64, n / 2, n - 1, n}, n+1)
 	for _, s := range cands {
